@@ -951,3 +951,79 @@ pub fn first_use_programs<S: Setup>() -> Vec<(String, Prog, Vec<S::E>, Vec<S::E>
     }
     out
 }
+
+/// Programs of the directed `recompose-dense` family: first statement public, then per value
+/// `Public, DecomposeExt, Add...` (recognised by shape so that replays classify alike).
+pub fn is_recompose_dense(prog: &Prog) -> bool {
+    prog.stmts.len() >= 4
+        && matches!(prog.stmts[0], Stmt::Public)
+        && matches!(prog.stmts[1], Stmt::Public)
+        && matches!(prog.stmts[2], Stmt::DecomposeExt(1))
+        && prog.stmts.iter().filter(|s| matches!(s, Stmt::DecomposeExt(_))).count() >= 2
+        && prog.stmts.iter().all(|s| matches!(s, Stmt::Public | Stmt::DecomposeExt(_) | Stmt::Add(..) | Stmt::RecomposeExt(..) | Stmt::Mul(..)))
+        && {
+            // no value decomposed twice, no coefficient recomposed twice
+            let mut dec: Vec<usize> = prog.stmts.iter().filter_map(|s| if let Stmt::DecomposeExt(x) = s { Some(*x) } else { None }).collect();
+            let n = dec.len();
+            dec.sort();
+            dec.dedup();
+            let mut rec: Vec<usize> = prog.stmts.iter().filter_map(|s| if let Stmt::RecomposeExt(cs, _) = s { Some(cs.clone()) } else { None }).flatten().collect();
+            let m = rec.len();
+            rec.sort();
+            rec.dedup();
+            dec.len() == n && rec.len() == m
+        }
+}
+
+/// Recompose tables dense in rows, every flavour / lane count (`Prog::recompose_variant` 0..5):
+/// n extension publics are decomposed (one table row each), every coefficient is read by the ALU,
+/// and the coefficients of every other value are supplied again as fresh inputs and recomposed (a
+/// second kind of row). Returns (variant, n, program, public inputs); empty for D = 1.
+pub fn recompose_dense_programs<S: Setup>() -> Vec<(u8, usize, Prog, Vec<S::E>)> {
+    let mut out = vec![];
+    if !matches!(S::D, 2 | 4 | 5) {
+        return out;
+    }
+    for variant in 0u8..5 {
+        for n in [2usize, 3, 5] {
+            let mut stmts = vec![Stmt::Public];
+            let mut publics = vec![S::el(&[7])];
+            let mut acc = 0usize;
+            let mut nv = 1usize;
+            for k in 0..n {
+                let x = nv;
+                stmts.push(Stmt::Public);
+                nv += 1;
+                let cs: Vec<u64> = (0..S::D).map(|i| 1 + (k as u64) + 10u64.pow(i as u32 % 4)).collect();
+                publics.push(S::el(&cs));
+                stmts.push(Stmt::DecomposeExt(x));
+                let coeffs: Vec<usize> = (nv..nv + S::D).collect();
+                nv += S::D;
+                for cidx in &coeffs {
+                    stmts.push(Stmt::Add(acc, *cidx));
+                    acc = nv;
+                    nv += 1;
+                }
+                // every other value is also rebuilt from fresh coefficient inputs (a row whose
+                // inputs are not hint outputs), through the flavour's own entry point
+                if k % 2 == 1 {
+                    let fresh: Vec<usize> = (0..S::D)
+                        .map(|i| {
+                            stmts.push(Stmt::Public);
+                            publics.push(S::el(&[cs[i]]));
+                            nv += 1;
+                            nv - 1
+                        })
+                        .collect();
+                    stmts.push(Stmt::RecomposeExt(fresh, if variant >= 2 { 1 } else { 0 }));
+                    let r = nv;
+                    nv += 1;
+                    stmts.push(Stmt::Mul(r, x));
+                    nv += 1;
+                }
+            }
+            out.push((variant, n, Prog { stmts, recompose_npo: true, recompose_variant: variant }, publics));
+        }
+    }
+    out
+}
